@@ -18,11 +18,13 @@ DecoyList == <<{"derivatives"}, {"code", "othersuffix"}, {}, {"derivatives", "ot
 RotDecoy(sh, d) == d = DecoyList[((sh.nsub + 2 * sh.nses + sh.ntask + 2 * sh.nrun) % 4) + 1]
 
 F == AllFiles
+G == Inheritable(F)
+PathMap(m) == [c \in DOMAIN m |-> Path(m[c])]
 
-EvOut == {[path |-> Path(f), chain |-> [i \in 1..Len(Chain(F, f)) |-> Path(Chain(F, f)[i])], merged |-> Merged(F, f)]
+EvOut == {[path |-> Path(f), chain |-> [i \in 1..Len(Chain(G, f)) |-> Path(Chain(G, f)[i])], merged |-> PathMap(Merged(G, f))]
             : f \in Targets(F)}
-ScOut == {[path |-> Path(s), cols |-> s.cols, chain |-> [i \in 1..Len(Chain(F, s)) |-> Path(Chain(F, s)[i])],
-           merged |-> Merged(F, s)] : s \in Sidecars(F)}
+ScOut == {[path |-> Path(s), cols |-> s.cols, chain |-> [i \in 1..Len(Chain(G, s)) |-> Path(Chain(G, s)[i])],
+           merged |-> PathMap(Merged(G, s))] : s \in Sidecars(F)}
 DecoyOut == {[path |-> Path(f), ext |-> f.ext, cols |-> f.cols] : f \in DecoyFiles(decoy)}
 Emit == PrintT("@@EMIT@@" \o ToJson([shape |-> shape, decoy |-> decoy, nsc |-> Cardinality(scs),
                                        events |-> EvOut, sidecars |-> ScOut, decoys |-> DecoyOut]))
